@@ -77,7 +77,7 @@ IssuerConfirms(st, c) ==
   /\ ~(st.now >= c.until)
   /\ <<c.i, c.id, c.t, c.until>> \notin st.rev
   /\ c.nonce = st.nonce[c.i][c.id][c.t]           \* message built with the current nonce
-  /\ c.def = None                                 \* the signature verifies for that message
+  /\ Sound(c)                                     \* the signature verifies for that message
 
 \* identity_verifier::validate_claim: field check, then the issuer
 ValidateClaim(st, c) == c.def \notin SlotDefects /\ IssuerConfirms(st, c)
